@@ -291,6 +291,22 @@ Theorem c19_flips_complete : forall a reg br ctx rs op j,
 Proof. exact try_bit_flips_complete. Qed.
 Print Assumptions c19_flips_complete.
 
+(* completeness of the whole path (with c19_pipeline_examined this characterises the report exactly, as a set): on a live
+   platform without null+offset recognition, for the crash address (or the recovered non-canonical address) and for every
+   register the analysis names and the context can read — if that value is not itself accessible, every single-bit
+   neighbour inside the platform's range that is null or in a region permitting the access is reported *)
+Theorem c19_pipeline_complete : forall analysis c os r address pc rs a reg j,
+  pointer_width c = WBits64 -> c <> GArm64 ->
+  (forall off, pipeline_adj analysis c os r address pc <> GAdjNullPointerWithOffset off) ->
+  ((reg = None /\ a = match pipeline_adj analysis c os r address pc with GAdjNonCanonical v => v | _ => address end) \/
+   (exists id x oa, reg = Some id /\ pc = Some x /\ analysis x = Some oa /\ In id (oa_regs oa) /\ get_register x id = Some a)) ->
+  inaccessible rs (memop_of_reason r) a ->
+  br_lo (pipeline_br analysis c os r address pc) <= j < br_hi (pipeline_br analysis c os r address pc) ->
+  qualifies rs (memop_of_reason r) (Z.lxor a (2 ^ j)) ->
+  exists f, In f (pipeline analysis c os r address pc rs) /\ f_addr f = Z.lxor a (2 ^ j) /\ f_reg f = reg.
+Proof. exact pipeline_complete. Qed.
+Print Assumptions c19_pipeline_complete.
+
 (* ---- non-vacuity ---- *)
 Example c19_nonvacuous_flip :
   let rs := [region_of_info 524288 8 0] in
